@@ -441,6 +441,16 @@ class Inliner:
         """Possibly several statements replacing `st`."""
         if depth <= 0:
             return [st]
+        # with self._helper(...) as f: BODY    reads as    f__ctx = self._helper(...);  with f__ctx as f: BODY
+        if isinstance(st, ast.With) and len(st.items) == 1 and isinstance(st.items[0].context_expr, ast.Call) \
+                and self.resolve_call(st.items[0].context_expr) is not None and not _is_generator(self.resolve_call(st.items[0].context_expr)[0]):
+            self.counter += 1
+            tmp = f"__ctx{self.counter}"
+            pre = ast.copy_location(ast.Assign(targets=[ast.Name(id=tmp, ctx=ast.Store())], value=st.items[0].context_expr), st)
+            new_with = copy.copy(st)
+            new_with.items = [ast.withitem(context_expr=ast.Name(id=tmp, ctx=ast.Load()), optional_vars=st.items[0].optional_vars)]
+            ast.fix_missing_locations(pre)
+            return self._stmt(pre, depth) + self._stmt(new_with, depth)
         call = None
         mode = None
         if isinstance(st, ast.Expr) and isinstance(st.value, ast.Call):
@@ -1353,6 +1363,11 @@ def normalize(repo: Repo, ci: Optional[ClassInfo], fn: ast.FunctionDef, sf: Opti
     if any(isinstance(n, ast.Assign) and isinstance(n.value, ast.Constant) and isinstance(n.value.value, bool) for n in ast.walk(out)) \
             and any(isinstance(n, ast.For) for n in ast.walk(out)):
         out = fold_flag_loops(out)
+    if any(isinstance(n, (ast.BoolOp, ast.If, ast.IfExp, ast.UnaryOp)) and any(isinstance(c, ast.Constant) and isinstance(c.value, bool)
+                                                                              for c in ast.iter_child_nodes(n) if isinstance(c, ast.Constant))
+           or (isinstance(n, ast.BoolOp) and any(isinstance(c, ast.Constant) for c in n.values))
+           or (isinstance(n, ast.UnaryOp) and isinstance(n.op, ast.Not) and isinstance(n.operand, ast.Constant)) for n in ast.walk(out)):
+        out = simplify_constants(out)
     if any(isinstance(n, ast.While) and isinstance(n.test, ast.Name) for n in ast.walk(out)):
         out = pop_loops_as_for(out)
     if any(isinstance(n, ast.With) for n in ast.walk(out)) and any(isinstance(n, ast.Call) and norm(n.func).split(".")[-1] == "suppress" for n in ast.walk(out)):
@@ -2126,6 +2141,73 @@ def split_conditional_callee(fn: ast.FunctionDef) -> ast.FunctionDef:
                     return None
                 return node
         Drop().visit(new)
+    ast.fix_missing_locations(new)
+    number(new)
+    return new
+
+
+def simplify_constants(fn: ast.FunctionDef) -> ast.FunctionDef:
+    """Boolean constants left behind by unrolling a table (`value != 0 or not False`) are folded, and `if True:` / `if False:`
+    are replaced by the branch taken.  Operands that are dropped must be free of calls."""
+    def pure(e: ast.expr) -> bool:
+        return not any(isinstance(n, (ast.Call, ast.Await, ast.Yield, ast.YieldFrom, ast.NamedExpr)) for n in ast.walk(e))
+
+    def truth(e: ast.expr) -> Optional[bool]:
+        if isinstance(e, ast.Constant) and (isinstance(e.value, (bool, int, str, bytes)) or e.value is None):
+            return bool(e.value)
+        return None
+
+    class X(ast.NodeTransformer):
+        def visit_UnaryOp(self, node):
+            node = self.generic_visit(node)
+            if isinstance(node.op, ast.Not) and truth(node.operand) is not None:
+                return ast.copy_location(ast.Constant(value=not truth(node.operand)), node)
+            return node
+
+        def visit_BoolOp(self, node):
+            node = self.generic_visit(node)
+            is_and = isinstance(node.op, ast.And)
+            absorbing = not is_and          # `or`: a true operand decides; `and`: a false one
+            kept = []
+            for v in node.values:
+                t = truth(v)
+                if t is None:
+                    kept.append(v)
+                elif t == absorbing:
+                    if all(pure(k) for k in kept) and isinstance(v, ast.Constant) and isinstance(v.value, bool):
+                        return ast.copy_location(ast.Constant(value=absorbing), node)
+                    kept.append(v)
+                    break                  # later operands are never evaluated
+                elif not (isinstance(v, ast.Constant) and isinstance(v.value, bool)):
+                    kept.append(v)
+                # a neutral boolean constant is dropped
+            if not kept:
+                return ast.copy_location(ast.Constant(value=not absorbing), node)
+            if len(kept) == 1:
+                return kept[0]
+            node.values = kept
+            return node
+
+        def visit_IfExp(self, node):
+            node = self.generic_visit(node)
+            t = truth(node.test)
+            if t is not None:
+                return node.body if t else node.orelse
+            return node
+
+        def visit_If(self, node):
+            node = self.generic_visit(node)
+            t = truth(node.test)
+            if t is not None:
+                taken = node.body if t else node.orelse
+                return taken or [ast.copy_location(ast.Pass(), node)]
+            return node
+    new = copy.deepcopy(fn)
+    X().visit(new)
+    for n in ast.walk(new):
+        for fld in ("body",):
+            if isinstance(getattr(n, fld, None), list) and not n.body and not isinstance(n, ast.Module):
+                n.body = [ast.Pass()]
     ast.fix_missing_locations(new)
     number(new)
     return new
